@@ -3,7 +3,7 @@
    Section contents are abstract ids ("A", "B", "empty"); the Lua section is a program id
    ("progA", "progB", "none") - luafmt and luamin change its form, never the program (C01, C09);
    a .p8 file carries a label section id, a .p8.png file a picture id. A command either commits or
-   fails (the harness realises Fail by making the Lua writer raise); a failing command leaves
+   fails (the harness realises Fail by making the last cart-formatter call of the command raise); a failing command leaves
    the directory unchanged (C11, C13).
    File naming as the tool does it: writep8 / luamin / luafmt on X.p8 or X.p8.png write X_fmt.p8 /
    X_fmt.p8.png (also writep8: its help text promises a .p8 for a .p8.png input, the code keeps the
